@@ -312,8 +312,18 @@ def _corpus():
 
 # ---------------------------------------------------------------------------------------------- generators
 
+def _zero_axis(rng, shape, p=0.03):
+    """occasionally an empty array (one zero-length axis) for the call sites that accept it"""
+    shape = list(shape)
+    if rng.random() < p:
+        shape[rng.randrange(len(shape))] = 0
+    return shape
+
+
 def _labels(rng, n, nonneg=True, maxlab=None):
     """label map with gaps and empty labels; blocks of equal labels are likely"""
+    if n == 0:
+        return []
     maxlab = maxlab or rng.choice([1, 2, 3, 5, 9])
     pool = sorted(rng.sample(range(0, maxlab + 1), rng.randint(1, min(4, maxlab + 1))))
     if not nonneg and rng.random() < 0.4:
@@ -372,7 +382,7 @@ def _gen_hist(rng):
 
 def _gen_bbox(rng):
     dtype = rng.choice(gen.INT_DTYPES + FLOATS)
-    shape = list(gen.small_shape(rng, ndim=rng.choice([1, 2, 2, 2, 3]), maxlen=8))
+    shape = _zero_axis(rng, gen.small_shape(rng, ndim=rng.choice([1, 2, 2, 2, 3]), maxlen=8))
     n = int(np.prod(shape))
     p = rng.choice([0.0, 0.05, 0.15, 0.4, 0.9])
     data = []
@@ -421,15 +431,17 @@ def _gen_com(rng):
 
 
 def _gen_relabel(rng):
-    shape = _shape(rng)
+    shape = _zero_axis(rng, _shape(rng))
     n = int(np.prod(shape))
     labels = _labels(rng, n, nonneg=rng.random() < 0.7, maxlab=rng.choice([2, 5, 9, 1000, 2 ** 31 - 1]))
     return dict(fn='relabel', shape=shape, labels=labels, inplace=rng.random() < 0.4)
 
 
 def _gen_same(rng):
-    shape = _shape(rng)
+    shape = _zero_axis(rng, _shape(rng))
     n = int(np.prod(shape))
+    if n == 0:
+        return dict(fn='same', shape=shape, labels=[], labels2=[], ldtype='int32', ldtype2='int32')
     a = _labels(rng, n, nonneg=rng.random() < 0.8)
     vals = sorted(set(a))
     style = rng.random()
@@ -463,7 +475,7 @@ def _gen_same(rng):
 
 
 def _gen_remove(rng):
-    shape = _shape(rng)
+    shape = _zero_axis(rng, _shape(rng))
     n = int(np.prod(shape))
     labels = _labels(rng, n, nonneg=rng.random() < 0.8)
     vals = sorted(set(labels))
@@ -473,9 +485,9 @@ def _gen_remove(rng):
 
 
 def _gen_rmborder(rng):
-    shape = list(gen.small_shape(rng, maxlen=7))
+    shape = _zero_axis(rng, gen.small_shape(rng, maxlen=7))
     n = int(np.prod(shape))
-    labels = _labels(rng, n, nonneg=rng.random() < 0.8, maxlab=rng.choice([3, 5, 9]))
+    labels = _labels(rng, n, nonneg=rng.random() < 0.8, maxlab=rng.choice([3, 5, 9])) or []
     r = rng.random()
     if r < 0.5:
         rsize = 1
@@ -484,7 +496,7 @@ def _gen_rmborder(rng):
     else:
         rsize = [rng.choice([0, 1, 2, 3, 9]) for _ in shape]
     return dict(fn='rmborder', shape=shape, labels=labels, ldtype=rng.choice(['int32', 'int64', 'int16', 'uint8'])
-                if min(labels) >= 0 else rng.choice(['int32', 'int64', 'int16']), rsize=rsize,
+                if min(labels, default=0) >= 0 else rng.choice(['int32', 'int64', 'int16']), rsize=rsize,
                 layout=rng.choice(gen.LAYOUTS), out=rng.choice([None, None, 'im', 'new']))
 
 
